@@ -3,7 +3,7 @@ package main
 // C15 — rate limiting is a per-client-subnet token bucket isolating clients.
 
 func init() {
-	register(&Check{ID: "C15", Level: "exploration", Rule: c15RuleText + " | E2E: flooders and a quiet victim on separate subnets against the real binary (REFUSED/503, never forwarded, victim answered), pipelined floods of 80 queries on one tcp / gnet / tls connection (every query answered with a well-formed frame, served or REFUSED, bucket respected), a subnet that has spent its burst and asks again after 20 000 - 70 000 other subnets were seen once each (in-process), a quiet subnet that is refused for the global limit while sixty other subnets flood and must be served once the flood has stopped (its own bucket was never used), a subnet whose queries must still be served after sixty DoH requests of unknown origin (client address header configured, request without it); the in-process histories contain passes of the limiter's garbage collector (hook H7)",
+	register(&Check{ID: "C15", Level: "exploration", Rule: c15RuleText + " | E2E: flooders and a quiet victim on separate subnets against the real binary (REFUSED/503, never forwarded, victim answered), pipelined floods of 80 queries on one tcp / gnet / tls connection (every query answered with a well-formed frame, served or REFUSED, bucket respected), a subnet that has spent its burst and asks again after 20 000 - 70 000 other subnets were seen once each, fresh subnets after a gc pass has removed fifty spent buckets of a slow-refill configuration (both in-process), a quiet subnet that is refused for the global limit while sixty other subnets flood and must be served once the flood has stopped (its own bucket was never used), a subnet whose queries must still be served after sixty DoH requests of unknown origin (client address header configured, request without it); the in-process histories contain passes of the limiter's garbage collector (hook H7)",
 		Run: func(c *Ctx) {
 			c15InProcess(c)
 			c15E2E(c)
